@@ -18,6 +18,7 @@
                           receiveRoutine, internalMsgQueue:  OwnAppend ; OwnSync ; OwnHandle
      consensus/replay.go  catchupReplay                      Restart ; ReplayStep*
      consensus/wal.go     repairWalFile (drop the torn tail) (part of Restart)
+                          processFlushTicks / autofile RotateFile  BackgroundSync
 
    Durable : pv_file, pv_tmp, wal_synced, wal_unsynced        (wal_unsynced: written, not yet
              fsync'ed; a crash keeps ANY prefix of it and possibly a torn next record)
@@ -47,6 +48,14 @@ CONSTANTS Values,       \* block classes
           MaxTs,        \* timestamps 1..MaxTs (only equality matters)
           MaxCrashes,   \* crashes in the height
           Proposer,     \* the rounds in which this node is the proposer
+          EndHeight0IntoEmptyHead,
+             (* TRUE = the code as it is: BaseWAL.OnStart writes "#ENDHEIGHT 0" whenever the HEAD file
+                is empty, also when the group has rotated files.  catchupReplay searches for that
+                marker from the newest file backwards, finds the fresh one and never looks at the
+                records of the height in the rotated files again.  An empty head behind rotated
+                files is what a crash right after RotateFile, or the repair of a head that held
+                only a torn record, leaves.  (WAL defect, property C15; does not endanger C04.)
+                FALSE = the marker is written into a new log only.                            *)
           ShortTornUndetected
              (* TRUE = the code as it is: a torn WAL tail of 1..3 bytes is taken for a clean end of
                 the log (WALDecoder.Decode returns io.EOF when the 4-byte CRC read comes back short),
@@ -57,11 +66,12 @@ CONSTANTS Values,       \* block classes
                 endanger C04.)  FALSE = every torn tail is detected and repaired.             *)
 
 VARIABLES pv_file, pv_tmp, wal_synced, wal_unsynced,   \* durable
+          wal_head,     \* durable: how many records of wal_synced are in rotated files (0: never rotated)
           up, pv_mem, rs, inq, pc, replay,             \* volatile
           released, ncrash, act                        \* ghost
 
-scvars == <<pv_file, pv_tmp, wal_synced, wal_unsynced, up, pv_mem, rs, inq, pc, replay, released, ncrash, act>>
-durable  == <<pv_file, pv_tmp, wal_synced, wal_unsynced>>
+scvars == <<pv_file, pv_tmp, wal_synced, wal_unsynced, wal_head, up, pv_mem, rs, inq, pc, replay, released, ncrash, act>>
+durable  == <<pv_file, pv_tmp, wal_synced, wal_unsynced, wal_head>>
 
 H == 1
 Marker(k) == [h |-> k, r |-> k, s |-> k, sb |-> NoSB, sig |-> NoSig]
@@ -147,7 +157,7 @@ NoReq  == [t |-> "none", h |-> 0, r |-> 0, v |-> Nil, ts |-> 0]
 IdlePC == [stage |-> "idle", want |-> NoWant, req |-> NoReq, new |-> EmptyLSS, out |-> NoOut, done |-> FALSE]
 
 SCInit ==
-  /\ pv_file = EmptyLSS /\ pv_tmp = TmpNone /\ wal_synced = << >> /\ wal_unsynced = << >>
+  /\ pv_file = EmptyLSS /\ pv_tmp = TmpNone /\ wal_synced = << >> /\ wal_unsynced = << >> /\ wal_head = 0
   /\ up = TRUE /\ pv_mem = EmptyLSS /\ rs = InitRS /\ inq = << >> /\ pc = IdlePC /\ replay = 0
   /\ released = {} /\ ncrash = 0 /\ act = [name |-> "Init"]
 
@@ -163,7 +173,7 @@ Deliver(m, fv) ==
   /\ wal_unsynced' = Append(wal_unsynced, m)
   /\ AfterHandle(Handle(rs, m, fv))
   /\ act' = [name |-> "Deliver", m |-> m, fv |-> fv]
-  /\ UNCHANGED <<pv_file, pv_tmp, wal_synced, up, pv_mem, inq, replay, released, ncrash>>
+  /\ UNCHANGED <<pv_file, pv_tmp, wal_synced, wal_head, up, pv_mem, inq, replay, released, ncrash>>
 
 \* signVote / defaultDecideProposal: cs.wal.FlushAndSync()
 FlushWal ==
@@ -180,7 +190,7 @@ FlushWal ==
                ELSE wal_synced \o wal_unsynced
   /\ pc' = [pc EXCEPT !.stage = "check"]
   /\ act' = [name |-> "FlushWal"]
-  /\ UNCHANGED <<pv_file, pv_tmp, up, pv_mem, rs, inq, replay, released, ncrash>>
+  /\ UNCHANGED <<pv_file, pv_tmp, wal_head, up, pv_mem, rs, inq, replay, released, ncrash>>
 
 \* back to the caller of signAddVote / decideProposal
 Back == IdlePC
@@ -206,7 +216,7 @@ Check(ts) ==
                  ELSE IF res.kind = "new" THEN [pc EXCEPT !.stage = "sign", !.req = req, !.new = res.lss, !.out = res.out]
                  ELSE [pc EXCEPT !.stage = "release", !.req = req, !.out = res.out]
         /\ act' = [name |-> "Check", req |-> req, kind |-> res.kind, err |-> res.err, replaying |-> replay > 0]
-  /\ UNCHANGED <<pv_file, pv_tmp, wal_synced, wal_unsynced, up, pv_mem, rs, inq, replay, released, ncrash>>
+  /\ UNCHANGED <<pv_file, pv_tmp, wal_synced, wal_unsynced, wal_head, up, pv_mem, rs, inq, replay, released, ncrash>>
 
 \* the own message(s) as the WAL and the handlers see them (the timestamp plays no role there);
 \* defaultDecideProposal queues the proposal and then the block parts
@@ -225,21 +235,21 @@ ComputeSig ==
      ELSE /\ UNCHANGED <<released, inq>>
           /\ pc' = [pc EXCEPT !.stage = "computed"]
   /\ act' = [name |-> "ComputeSig"]
-  /\ UNCHANGED <<pv_file, pv_tmp, wal_synced, wal_unsynced, up, rs, replay, ncrash>>
+  /\ UNCHANGED <<pv_file, pv_tmp, wal_synced, wal_unsynced, wal_head, up, rs, replay, ncrash>>
 
 WriteTmp ==
   /\ up /\ pc.stage = "computed"
   /\ pv_tmp' = pc.new
   /\ pc' = [pc EXCEPT !.stage = "tmp"]
   /\ act' = [name |-> "WriteTmp"]
-  /\ UNCHANGED <<pv_file, wal_synced, wal_unsynced, up, pv_mem, rs, inq, replay, released, ncrash>>
+  /\ UNCHANGED <<pv_file, wal_synced, wal_unsynced, wal_head, up, pv_mem, rs, inq, replay, released, ncrash>>
 
 Rename ==
   /\ up /\ pc.stage = "tmp"
   /\ pv_file' = pv_tmp /\ pv_tmp' = TmpNone
   /\ pc' = [pc EXCEPT !.stage = "renamed"]
   /\ act' = [name |-> "Rename"]
-  /\ UNCHANGED <<wal_synced, wal_unsynced, up, pv_mem, rs, inq, replay, released, ncrash>>
+  /\ UNCHANGED <<wal_synced, wal_unsynced, wal_head, up, pv_mem, rs, inq, replay, released, ncrash>>
 
 \* SignVote/SignProposal returns nil; signAddVote/decideProposal: sendInternalMessage
 Release ==
@@ -250,7 +260,7 @@ Release ==
           /\ inq' = inq \o OwnRecs(pc.req, pc.out)
   /\ pc' = Back
   /\ act' = [name |-> "Release", req |-> pc.req, out |-> pc.out]
-  /\ UNCHANGED <<pv_file, pv_tmp, wal_synced, wal_unsynced, up, pv_mem, rs, replay, ncrash>>
+  /\ UNCHANGED <<pv_file, pv_tmp, wal_synced, wal_unsynced, wal_head, up, pv_mem, rs, replay, ncrash>>
 
 \* receiveRoutine, case mi := <-cs.internalMsgQueue:  cs.wal.WriteSync(mi) = Write ; FlushAndSync
 OwnAppend ==
@@ -258,21 +268,33 @@ OwnAppend ==
   /\ wal_unsynced' = Append(wal_unsynced, Head(inq))
   /\ pc' = [pc EXCEPT !.stage = "ownsync"]
   /\ act' = [name |-> "OwnAppend", m |-> Head(inq)]
-  /\ UNCHANGED <<pv_file, pv_tmp, wal_synced, up, pv_mem, rs, inq, replay, released, ncrash>>
+  /\ UNCHANGED <<pv_file, pv_tmp, wal_synced, wal_head, up, pv_mem, rs, inq, replay, released, ncrash>>
 
 OwnSync ==
   /\ up /\ pc.stage = "ownsync"
   /\ wal_synced' = wal_synced \o wal_unsynced /\ wal_unsynced' = << >>
   /\ pc' = [pc EXCEPT !.stage = "ownhandle"]
   /\ act' = [name |-> "OwnSync"]
-  /\ UNCHANGED <<pv_file, pv_tmp, up, pv_mem, rs, inq, replay, released, ncrash>>
+  /\ UNCHANGED <<pv_file, pv_tmp, wal_head, up, pv_mem, rs, inq, replay, released, ncrash>>
 
 OwnHandle(fv) ==
   /\ up /\ pc.stage = "ownhandle"
   /\ inq' = Tail(inq)
   /\ AfterHandle(Handle(rs, Head(inq), fv))
   /\ act' = [name |-> "OwnHandle", m |-> Head(inq)]
-  /\ UNCHANGED <<pv_file, pv_tmp, wal_synced, wal_unsynced, up, pv_mem, replay, released, ncrash>>
+  /\ UNCHANGED <<pv_file, pv_tmp, wal_synced, wal_unsynced, wal_head, up, pv_mem, replay, released, ncrash>>
+
+(* Two background goroutines make buffered WAL data durable on their own: BaseWAL's flush
+   ticker (processFlushTicks: FlushAndSync every 2 s) and the autofile group's size check
+   (processTicks -> checkHeadSizeLimit -> RotateFile: flush, fsync, close the head, rename it
+   to <head>.NNN, open a new head).  Neither changes the contents of the log.  They are
+   offered between two iterations of the receive routine, where the harness can place them. *)
+BackgroundSync(how) ==
+  /\ up /\ pc.stage = "idle" /\ replay = 0 /\ wal_unsynced # << >>
+  /\ wal_synced' = wal_synced \o wal_unsynced /\ wal_unsynced' = << >>
+  /\ wal_head' = IF how = "rotate" THEN Len(wal_synced') ELSE wal_head     \* the new head file is empty
+  /\ act' = [name |-> "BackgroundSync", how |-> how]
+  /\ UNCHANGED <<pv_file, pv_tmp, up, pv_mem, rs, inq, pc, replay, released, ncrash>>
 
 (* process death at any point.  Everything volatile is gone.  Of the unsynced WAL tail any
    prefix survives; if the cut falls inside a record that record is torn.  A crash in the
@@ -290,7 +312,7 @@ Crash ==
                   unsynced |-> Len(wal_unsynced), replaying |-> replay > 0]
   /\ up' = FALSE /\ pv_mem' = Down /\ rs' = InitRS /\ inq' = << >> /\ pc' = IdlePC /\ replay' = 0
   /\ ncrash' = ncrash + 1
-  /\ UNCHANGED <<pv_file, released>>
+  /\ UNCHANGED <<pv_file, wal_head, released>>
 
 (* What catch-up replay makes of the log.  Reading stops at the first torn record.  If that is
    a short one at the very end it looks like the end of the log and stays where it is; in every
@@ -305,9 +327,14 @@ Restart ==
   /\ ~up
   /\ up' = TRUE
   /\ pv_mem' = LoadLSS(pv_file)
-  /\ wal_synced' = Repaired(wal_synced)
+  /\ LET w == Repaired(wal_synced)
+         \* the head file is empty when the WAL is (re)opened, older files exist: "#ENDHEIGHT 0"
+         \* goes into the head and hides them from every later search
+         shadowed == EndHeight0IntoEmptyHead /\ wal_head > 0 /\ Len(w) <= wal_head
+     IN /\ wal_synced' = IF shadowed THEN << >> ELSE w
+        /\ wal_head' = IF shadowed THEN 0 ELSE wal_head
+        /\ act' = [name |-> "Restart", repaired |-> w # wal_synced, shadowed |-> shadowed]
   /\ replay' = 1
-  /\ act' = [name |-> "Restart", repaired |-> Repaired(wal_synced) # wal_synced]
   /\ UNCHANGED <<pv_file, pv_tmp, wal_unsynced, rs, inq, pc, released, ncrash>>
 
 \* catchupReplay: readReplayMessage -> handleMsg / handleTimeout (nothing is written for it)
@@ -319,12 +346,13 @@ ReplayStep(fv) ==
      ELSE /\ replay' = replay + 1
           /\ AfterHandle(Handle(rs, wal_synced[replay], fv))
           /\ act' = [name |-> "ReplayStep", m |-> wal_synced[replay], fv |-> fv]
-  /\ UNCHANGED <<pv_file, pv_tmp, wal_synced, wal_unsynced, up, pv_mem, inq, released, ncrash>>
+  /\ UNCHANGED <<pv_file, pv_tmp, wal_synced, wal_unsynced, wal_head, up, pv_mem, inq, released, ncrash>>
 
 SCNext ==
   \/ \E m \in Inputs(rs), fv \in Values : Deliver(m, fv)
   \/ FlushWal \/ (\E ts \in 1..MaxTs : Check(ts)) \/ ComputeSig \/ WriteTmp \/ Rename \/ Release
   \/ OwnAppend \/ OwnSync \/ (\E fv \in Values : OwnHandle(fv))
+  \/ (\E how \in {"ticker", "rotate"} : BackgroundSync(how))
   \/ Crash \/ Restart \/ (\E fv \in Values : ReplayStep(fv))
 
 SCSpec == SCInit /\ [][SCNext]_scvars
@@ -340,7 +368,8 @@ HRSMonotone          == [][LssLeq(pv_file, pv_file')]_scvars
 FlushBeforeSign == pc.stage \in {"check", "sign", "computed", "tmp", "renamed", "release"} => wal_unsynced = << >>
 \* (b) therefore replay recomputes the same VOTE and the signer never refuses the node's own
 \*     vote as conflicting (a proposal can be refused: its block is made anew every time).
-\*     Holds with ShortTornUndetected = FALSE only: a log that loses synced records breaks it.
+\*     Holds with ShortTornUndetected = FALSE and EndHeight0IntoEmptyHead = FALSE only: a log
+\*     that loses synced records breaks it.
 NoSelfLockout == [][(act'.name = "Check" /\ act'.err = "err_conflict") => act'.req.t = "proposal"]_scvars
 \* (c) an own message is handled only after it is durable in the WAL
 OwnDurableBeforeHandled == pc.stage = "ownhandle" => (wal_unsynced = << >> /\ \E i \in DOMAIN wal_synced : wal_synced[i] = Head(inq))
@@ -348,5 +377,5 @@ OwnDurableBeforeHandled == pc.stage = "ownhandle" => (wal_unsynced = << >> /\ \E
 MemNotBehind == up => LssLeq(pv_file, pv_mem)
 ReleasedSigOverMsg == \A x \in released : SigOverMessage(x)
 
-SCView == <<pv_file, pv_tmp, wal_synced, wal_unsynced, up, pv_mem, rs, inq, pc, replay, released, ncrash>>
+SCView == <<pv_file, pv_tmp, wal_synced, wal_unsynced, wal_head, up, pv_mem, rs, inq, pc, replay, released, ncrash>>
 =============================================================================
